@@ -74,7 +74,7 @@ func (w pipeWriter) Write(b []byte) (int, error) {
 	p := w.p
 	s := p.s
 	if !s.dead.Load() {
-		s.Yield(fmt.Sprintf("pipe.write %s +%d", p.Name, len(b)))
+		s.IOPoint(fmt.Sprintf("pipe.write %s +%d", p.Name, len(b)), nil, p)
 	}
 	p.mu.Lock()
 	defer p.mu.Unlock()
@@ -118,7 +118,7 @@ func (r pipeReader) Read(b []byte) (int, error) {
 			p.mu.Unlock()
 			d := 0
 			if !s.dead.Load() {
-				d = s.Point(fmt.Sprintf("pipe.read %s", p.Name), []int{100, p.ShortRead, p.ShortRead})
+				d = s.IOPoint(fmt.Sprintf("pipe.read %s", p.Name), []int{100, p.ShortRead, p.ShortRead}, p)
 			}
 			p.mu.Lock()
 			if p.rClosed {
